@@ -84,6 +84,10 @@ async def run_history(sc):
                                      auth=bool(q["flags"] & 1), engine_ok=q["engine"] == engine, ctx_ok=q.get("ctxengine", cfg_ctx or engine) == (cfg_ctx or engine), verdict=q.get("verdict", "?")))
                 w = wire[w0:]
                 events.append(dict(e="op", ret=ret, probes=w.count("probe"), first_wire=w[0] if w else "none", reqs=reqs))
+            elif step == "new":
+                # another client object for the same agent, created later in the same process: it starts from nothing (nothing is shared)
+                c = Client("192.0.2.1", drv_usm.make_creds(sc), sender=sender, engine_id=cfg_ctx)
+                events.append(dict(e="newclient"))
             elif step == "reboot":
                 ag.reboot()
                 events.append(dict(e="reboot"))
